@@ -84,6 +84,9 @@ def run(ctx):
     ar.fresh_part_rule(ctx, 'R18.2m')
     ar.parts_first_rule(ctx, 'R18.2m')
     ar.no_remove_rename_rule(ctx, 'R18.2m')
+    r188(ctx)
+    from . import c01 as _c01e
+    _c01e.r121(ctx, 'R18.9')     # an index level never replaces a column of the same name (refused instead)
     _overwrite_order(ctx)
     # R18.3
     ar.compat_checks_rule(ctx, 'R18.3')
@@ -225,3 +228,41 @@ def _validate_early(ctx):
 
 def wr_mod(ctx):
     return ctx.repo['writer']
+
+
+def r188(ctx, rule='R18.8'):
+    """writer.make_metadata: which columns may hold NULL is the caller's choice.  "Object columns are nullable" is the
+    rule for has_nulls=None ('infer') only; with a list, exactly the listed columns are, with True / False all / none.
+    So the test of a column's dtype for 'O' counts only where has_nulls is known to be None - otherwise a column the
+    caller declared REQUIRED silently accepts None instead of the write being refused."""
+    from .. import pathcond as pc
+    wr = ctx.repo['writer']
+    f = wr.func('make_metadata')
+    r = pc.reach(f)
+    sites = []
+    for st in walk_no_nested(f):
+        if not isinstance(st, ast.stmt) or id(st) not in r:
+            continue
+        hdr = [st.test] if isinstance(st, (ast.If, ast.While)) else ([] if isinstance(st, (ast.For, ast.With, ast.Try, ast.FunctionDef)) else [st])
+        for h in hdr:
+            for c in ast.walk(h):
+                if isinstance(c, ast.Compare) and ".dtype == 'O'" in norm(c):
+                    sites.append((st, h, c))
+    ctx.floor(rule, "tests of a column's dtype for object in make_metadata", len(sites), 1)
+    want = ('atom', 'None is has_nulls', frozenset())
+    for st, h, c in sites:
+        cond = pc._strip(r[id(st)])
+        # inside a conditional expression / an `and`: the tests evaluated before it on the way
+        extra = []
+        for x in ast.walk(h):
+            if isinstance(x, ast.IfExp) and any(c is y for y in ast.walk(x.body)):
+                extra.append(pc._strip(pc.formula(x.test)))
+            if isinstance(x, ast.IfExp) and any(c is y for y in ast.walk(x.orelse)):
+                extra.append(pc._neg(pc._strip(pc.formula(x.test))))
+            if isinstance(x, ast.BoolOp) and isinstance(x.op, ast.And):
+                for i_, v in enumerate(x.values):
+                    if any(c is y for y in ast.walk(v)):
+                        extra += [pc._strip(pc.formula(u)) for u in x.values[:i_]]
+        full = pc._and([cond] + extra)
+        ctx.ob(rule, "writer.make_metadata:object-columns-nullable-only-when-has_nulls-is-None:%s" % norm(c)[:40], pc.implies(full, want) is True,
+               'the test is evaluated under %s' % pc.dumps(full)[:200], wr.loc(c))
